@@ -4,6 +4,11 @@ import Rare.Proofs.C17Range
 import Rare.Proofs.C17Wrap
 import Rare.Proofs.C17Laws
 import Rare.Proofs.C17Pool
+import Rare.Proofs.C17Sel
+import Rare.Proofs.C17Iter
+import Rare.Proofs.C17Heap
+import Rare.Proofs.C17Extra
+import Rare.Model.Expr.Std
 import Rare.Gen.C17
 import Rare.Spec.C17Wf
 /-!
@@ -1143,6 +1148,273 @@ theorem range_bad_type_any (ctx : Ctx) (sStart sStop sIncr : Stage) (a b c : Byt
 
 example : atoi (ascii "1.5") = none ∧ atoi (ascii "1e3") = none ∧ atoi (ascii "0x10") = none ∧ atoi (ascii " 1") = none := by
   decide +kernel
+
+/-! ## `{select}`, `tab`, and the `kfJoin` the registry finds
+
+`{select s i}` (funcsFuncs.Strings.go `selectField`) numbers WORDS, and NUL is one of its delimiters: pointed at an
+array it is a second way of taking an element – a different function from `{@select a i}`.  `tab` is
+`kfJoin("\t")`, the builder behind `{$ ..}`/`{@ ..}` with another byte. -/
+
+/-- **`{select s i}` is word selection**, for EVERY string without a double quote and every index: the `i`-th
+    maximal run of bytes other than space, tab, newline and NUL (`words`, `Spec/C17Sel.lean`; a string that
+    starts with a delimiter has the empty word 0, runs of delimiters count once, trailing ones not at all),
+    nothing for an index that is negative or past the last word.  (The loop of `selectField` works on byte
+    offsets `wordStart`/`i`; `selLoop_words` is its invariant.) -/
+theorem word_select_spec (ctx : Ctx) (a0 a1 : Stage) (s i : Bytes) (idx : Int)
+    (h0 : a0.run ctx = .ok s) (h1 : a1.run ctx = .ok i) (hi : atoi i = some idx) (hq : ∀ c ∈ s, c ≠ 34) :
+    ∃ st, Funcs.Strings.kfSelect [a0, a1] = ok st ∧ st.run ctx = .ok (selectWord s idx) := by
+  refine ⟨_, rfl, ?_⟩
+  simp only [bind, pure]
+  rw [run_bind_ok ctx _ _ _ h0, run_bind_ok ctx _ _ _ h1]
+  simp only [hi, Comp.run]
+  rw [selectField_words s idx hq]
+
+/-- Words contain no delimiter, and plain words joined by single delimiter bytes (an array of plain elements,
+    the result of `tab`, a blank-separated line) are read back as themselves. -/
+theorem words_read_back (d : UInt8) (hd : isWordDelim d = true) (ws : List Bytes) (hne : ws ≠ [])
+    (hw : ∀ w ∈ ws, IsPlainWord w) :
+    words (join [d] ws) = ws ∧ ∀ s, ∀ w ∈ words s, ∀ c ∈ w, isWordDelim c = false :=
+  ⟨words_join d hd ws hne (fun w h => ⟨(hw w h).1, fun c hc => ((hw w h).2 c hc).1⟩),
+   fun s => wordsGo_free s [] false (by simp)⟩
+
+private theorem plain_no_quote (d : UInt8) (hd : isWordDelim d = true) (ws : List Bytes)
+    (hw : ∀ w ∈ ws, IsPlainWord w) : ∀ c ∈ join [d] ws, c ≠ 34 := by
+  intro c hc
+  rcases mem_join d ws c hc with e | ⟨w, hm, hcw⟩
+  · subst e; exact wordDelim_ne_quote c hd
+  · exact ((hw w hm).2 c hcw).2
+
+private theorem plain_nul_free (ws : List Bytes) (hw : ∀ w ∈ ws, IsPlainWord w) : ∀ y ∈ ws, NUL ∉ y := by
+  intro y hy hn
+  have := ((hw y hy).2 NUL hn).1
+  simp [isWordDelim, NUL] at this
+
+/-- **Where the two selections agree.**  On an array of plain elements (non-empty, free of white space, NUL and
+    quotes) and an index `i ≥ 0`, `{select a i}` and `{@select a i}` both give the `i`-th element (nothing past
+    the end). -/
+theorem select_agrees_on_plain_arrays (ctx : Ctx) (a0 : Stage) (ws : List Bytes) (i : Bytes) (idx : Int)
+    (hne : ws ≠ []) (hw : ∀ w ∈ ws, IsPlainWord w)
+    (h0 : a0.run ctx = .ok (pack ws)) (hi : atoi i = some idx) (hpos : 0 ≤ idx)
+    (hl : ((pack ws).length : Int) < maxInt64) :
+    (∃ st, Funcs.Strings.kfSelect [a0, Stage.lit i] = ok st ∧ st.run ctx = .ok (ws.getD idx.toNat [])) ∧
+    kfArraySelect [a0, Stage.lit i] = ok (selectStage idx a0) ∧
+    (selectStage idx a0).run ctx = .ok (ws.getD idx.toNat []) := by
+  have hd0 : isWordDelim NUL = true := by decide
+  have hc : evalStageInt (Stage.lit i) = .ok (some idx) := by
+    simp [evalStageInt, Stage.lit, Comp.probe, Comp.probeN, hi]
+  refine ⟨?_, ?_⟩
+  · obtain ⟨st, e, hr⟩ := word_select_spec ctx a0 (Stage.lit i) (pack ws) i idx h0 rfl hi
+      (plain_no_quote NUL hd0 ws hw)
+    refine ⟨st, e, ?_⟩
+    rw [hr]
+    have hneg : ¬ idx < 0 := by omega
+    simp only [selectWord, hneg, if_false]
+    have : words (pack ws) = ws := (words_read_back NUL hd0 ws hne hw).1
+    rw [this]
+  · obtain ⟨e, hr⟩ := select_spec ctx a0 (Stage.lit i) (pack ws) idx hc h0 hl
+    refine ⟨e, ?_⟩
+    rw [hr, select_elems_pack ws (plain_nul_free ws hw)]
+    have hneg : ¬ idx < 0 := by omega
+    simp [select, hneg]
+
+/-- **Where they differ** (kernel-checked, `{select}` first, `{@select}` second in each pair): an empty element
+    is skipped by `{select}` and counted by `{@select}`; a negative index selects nothing / counts from the end;
+    an element with a blank is two words; between double quotes the separator does not separate (and the
+    opening quote stays in the answer). -/
+theorem select_differs_from_at_select :
+    (Funcs.Strings.selectField (pack [ascii "a", [], ascii "b"]) 1 = ascii "b" ∧
+      select (elems (pack [ascii "a", [], ascii "b"])) 1 = []) ∧
+    (Funcs.Strings.selectField (pack [ascii "a", ascii "b"]) (-1) = [] ∧
+      select (elems (pack [ascii "a", ascii "b"])) (-1) = ascii "b") ∧
+    (Funcs.Strings.selectField (pack [ascii "a b", ascii "c"]) 1 = ascii "b" ∧
+      select (elems (pack [ascii "a b", ascii "c"])) 1 = ascii "c") ∧
+    (Funcs.Strings.selectField (pack [[34, 97], [98, 34], ascii "c"]) 0 = [34, 97, 0, 98] ∧
+      select (elems (pack [[34, 97], [98, 34], ascii "c"])) 0 = [34, 97]) := by
+  decide +kernel
+
+/-- **`{tab a b …}`** (two or more arguments) joins the values with a tab; splitting the result at tabs is the
+    array `{@ a b …}` of the same values when no value contains a tab. -/
+theorem tab_spec (ctx : Ctx) (a0 a1 : Stage) (rest : List Stage) (v0 v1 : Bytes) (vs : List Bytes)
+    (h0 : a0.run ctx = .ok v0) (h1 : a1.run ctx = .ok v1)
+    (hr : rest.map (fun a => a.run ctx) = vs.map Except.ok) :
+    ∃ st, Funcs.Strings.kfJoin [9] (a0 :: a1 :: rest) = ok st ∧ st.run ctx = .ok (join [9] (v0 :: v1 :: vs)) ∧
+      ((∀ v ∈ v0 :: v1 :: vs, (9 : UInt8) ∉ v) →
+        (splitStage [9] st).run ctx = .ok (pack (v0 :: v1 :: vs))) := by
+  have hrun := kfJoin_run ctx [9] a0 (a1 :: rest) v0 (v1 :: vs) h0 (by simp [h1, hr])
+  refine ⟨_, rfl, hrun, ?_⟩
+  intro hfree
+  rw [split_spec ctx _ _ [9] (by simp) hrun]
+  rw [split_join_list [9] (by simp) (v0 :: v1 :: vs) (by simp)]
+  intro x hx hin
+  have : ([9] : Bytes) <:+: x := by simpa using hin
+  exact hfree x hx (this.subset (List.mem_singleton.mpr rfl))
+
+/-- **Which `kfJoin` the registry finds.**  `$`, `@` and `tab` resolve to `Funcs.Funcs.Strings.kfJoin` (the
+    string-helper table comes first in `stdTable`); `concat_spec` speaks about `Funcs.Range.joinArgs`, a second
+    transcription of the same Go function.  For every delimiter byte, every argument list and every context the
+    two are the same: same stage result, same panic, same (absent) compile error. -/
+theorem concat_models_agree (ctx : Ctx) (d : UInt8) (args : List Stage) :
+    lookupTable stdTable "@" = some (Funcs.Strings.kfJoin [ArraySeparator]) ∧
+    lookupTable stdTable "$" = some (Funcs.Strings.kfJoin [ArraySeparator]) ∧
+    lookupTable stdTable "tab" = some (Funcs.Strings.kfJoin [9]) ∧
+    builtRun ctx (Funcs.Strings.kfJoin [d] args) = builtRun ctx (joinArgs d args) :=
+  ⟨rfl, rfl, rfl, kfJoin_models_agree ctx d args⟩
+
+/-! ## `@for` at the iteration limit -/
+
+/-- **`MAX_ITERATIONS` of `@for`, the exact boundary, for every `N`.**  A loop whose condition is truthy exactly in
+    the rounds `0 … N-1` (only the rounds the loop can reach are constrained: `k ≤ MAX_ITERATIONS`) produces its
+    `N` values when `N ≤ MAX_ITERATIONS` – `N = MAX_ITERATIONS` included – and `<INF>` from `N = MAX_ITERATIONS+1`
+    on; whatever the values are. -/
+theorem for_limit_boundary (ctx : Ctx) (a0 a1 a2 : Stage) (start : Bytes) (fc fn : Bytes → Bytes → Bytes) (N : Nat)
+    (h0 : a0.run ctx = .ok start)
+    (hc : ∀ v0 v1, a1.run (subCtx ctx v0 v1) = .ok (fc v0 v1))
+    (hn : ∀ v0 v1, a2.run (subCtx ctx v0 v1) = .ok (fn v0 v1))
+    (hN : ∀ v (k : Nat), k ≤ Gen.maxIterations → truthy (fc v (itoa (k : Nat))) = decide (k < N)) :
+    (forStage a0 a1 a2).run ctx =
+      .ok (if N ≤ Gen.maxIterations then pack (iterN (fun v k => fn v (itoa (k : Nat))) N 0 start) else InfMarker) ∧
+    (iterN (fun v k => fn v (itoa (k : Nat))) N 0 start).length = N := by
+  refine ⟨?_, iterN_length _ _ _ _⟩
+  rw [for_spec ctx a0 a1 a2 start fc fn h0 hc hn,
+    iterateWhile_counted _ _ N Gen.maxIterations 0 start (fun w k' hk' => hN w k' (by omega))]
+  by_cases h : N ≤ Gen.maxIterations <;> simp [h]
+
+/-- The hypotheses are satisfiable: the condition `{1} < 3` as a function of the bound values. -/
+example : ∀ v (k : Nat), k ≤ Gen.maxIterations →
+    truthy ((fun (_ i : Bytes) => if (atoi i).any (· < 3) then [49] else []) v (itoa (k : Nat))) =
+      decide (k < 3) := by
+  intro v k hk
+  have hM : Gen.maxIterations = 1000000 := rfl
+  have e := atoi_itoa (k : Int) (by unfold minInt64; omega) (by unfold maxInt64; omega)
+  have t1 : truthy [49] = true := by decide
+  have t0 : truthy [] = false := by decide
+  simp only [e, Option.any_some]
+  by_cases h : k < 3
+  · have : ((k : Int) < 3) := by omega
+    simp [h, this, t1]
+  · have : ¬ ((k : Int) < 3) := by omega
+    simp [h, this, t0]
+
+/-! ## Nested helpers over ONE shared heap
+
+`Model/C17Heap.lean` is the machine with objects: a pool (`objpool.go`), objects with a `parent` pointer and two
+slots, look-ups that chase pointers, and the closures of `@map`/`@filter`/`@reduce`/`@for` doing `Get`, overwrite,
+`Eval`, deferred `Return` on that one heap – for templates in which helpers nest in arguments and in
+sub-expressions to any depth.  `den` is the same template in the pool-free model the correspondence runs. -/
+
+/-- The pool-free model computes the list reading `val` of every total template, in every context. -/
+theorem den_val : ∀ (t : C17Heap.Tm) (ctx : Ctx), Total t → (C17Heap.den t).run ctx = .ok (val t ctx)
+  | .scalar c, ctx, ht => run_noPanic ctx c ht
+  | .app1 g a, ctx, ht => by
+    simp only [C17Heap.den, val]
+    rw [run_bind_ok ctx _ _ _ (den_val a ctx ht)]; rfl
+  | .app2 g a b, ctx, ht => by
+    simp only [C17Heap.den, val]
+    rw [run_bind_ok ctx _ _ _ (den_val a ctx ht.1), run_bind_ok ctx _ _ _ (den_val b ctx ht.2)]; rfl
+  | .map a f, ctx, ht => by
+    simp only [C17Heap.den, val]
+    exact map_spec ctx _ _ _ (fun v0 v1 => val f (subCtx ctx v0 v1)) (den_val a ctx ht.1)
+      (fun v0 v1 => den_val f (subCtx ctx v0 v1) ht.2)
+  | .filter a p, ctx, ht => by
+    simp only [C17Heap.den, val]
+    exact filter_spec ctx _ _ _ (fun v0 v1 => val p (subCtx ctx v0 v1)) (den_val a ctx ht.1)
+      (fun v0 v1 => den_val p (subCtx ctx v0 v1) ht.2)
+  | .reduce init a f, ctx, ht => by
+    simp only [C17Heap.den, val]
+    exact reduce_spec ctx _ _ _ init (fun v0 v1 => val f (subCtx ctx v0 v1)) (den_val a ctx ht.1)
+      (fun v0 v1 => den_val f (subCtx ctx v0 v1) ht.2)
+  | .for_ s c n, ctx, ht => by
+    simp only [C17Heap.den, val]
+    exact for_spec ctx _ _ _ _ (fun v0 v1 => val c (subCtx ctx v0 v1)) (fun v0 v1 => val n (subCtx ctx v0 v1))
+      (den_val s ctx ht.1) (fun v0 v1 => den_val c (subCtx ctx v0 v1) ht.2.1)
+      (fun v0 v1 => den_val n (subCtx ctx v0 v1) ht.2.2)
+
+/-- **The pool is invisible, for whole templates over one shared heap.**  Take ANY heap – the objects in the free
+    list hold whatever their last users left (stale parents included), the pool has any size (empty too: `Get`
+    then allocates) – whose free list has no duplicates, and any context value `ref` whose parent chain `l`
+    consists of distinct checked-out objects (`Good`; the root context and an empty chain for a line's
+    evaluation).  For every template `t` (helpers nested in arguments and sub-expressions to any depth; leaves that
+    cannot panic) the machine that really takes objects from the pool, overwrites and fills them, evaluates
+    sub-expressions against the OBJECT by pointer chasing and returns the object by `defer`,
+    * does not run out of stack (`fuel` only has to exceed chain length + nesting depth: no cycle is ever built),
+    * answers exactly what the pool-free model `den t` answers in the context the chain denotes, the list
+      reading `val t`,
+    * and leaves the heap `Frame`d: the free list has no duplicates, holds exactly the objects it held before
+      plus freshly allocated ones (every `Get` was matched by its `Return`), and NO checked-out object – the
+      enclosing helpers' objects, other goroutines' objects – had any field changed. -/
+theorem pooled_template_spec (root : Ctx) (fuel : Nat) (t : C17Heap.Tm) (ht : Total t)
+    (ref : C17Heap.Ref) (h : C17Heap.Heap) (l : List Nat) (g : Good h l ref) (hf : l.length + C17Heap.depth t < fuel) :
+    ∃ h', C17Heap.ev root fuel t ref h = .ok (val t (ctxOf root h.objs l), h') ∧
+      (C17Heap.den t).run (ctxOf root h.objs l) = .ok (val t (ctxOf root h.objs l)) ∧
+      Frame h h' [] := by
+  obtain ⟨h', e, fr⟩ := ev_val root fuel t ht ref h l g hf
+  exact ⟨h', e, den_val t _ ht, fr⟩
+
+/-- The evaluation of a line: root context, a pool in any state. -/
+theorem pooled_template_line (root : Ctx) (t : C17Heap.Tm) (ht : Total t) (h : C17Heap.Heap) (hp : PoolOk h.pool) :
+    ∃ v h', (C17Heap.den t).run root = .ok v ∧ C17Heap.ev root (C17Heap.depth t + 1) t .root h = .ok (v, h') ∧
+      (∀ x, x ∈ h'.pool.free ↔ x ∈ h.pool.free ∨ (h.pool.next ≤ x ∧ x < h'.pool.next)) := by
+  obtain ⟨h', e, d, fr⟩ := pooled_template_spec root (C17Heap.depth t + 1) t ht .root h [] (good_root h hp) (by simp)
+  exact ⟨_, h', d, e, fr.free⟩
+
+/-- **Another evaluation in between changes nothing this one can see.**  Between two steps of an evaluation whose
+    context is the chain `l` (its helpers hold those objects), let ANY other total template `t2` be evaluated to
+    the end on the same heap – another goroutine's line, with its own root context `root2`.  Afterwards this
+    evaluation's chain is intact (same objects, still checked out, same parents) and denotes the same context.
+    (Coarse-grained: the other evaluation runs to its end; `Get`/`Return` themselves are atomic by the mutex,
+    `pool_exclusive` is the statement for arbitrary orders of those.) -/
+theorem pooled_noninterference (root root2 : Ctx) (t2 : C17Heap.Tm) (ht2 : Total t2)
+    (ref : C17Heap.Ref) (h : C17Heap.Heap) (l : List Nat) (g : Good h l ref) :
+    ∃ v h', C17Heap.ev root2 (C17Heap.depth t2 + 1) t2 .root h = .ok (v, h') ∧
+      Good h' l ref ∧ ctxOf root h'.objs l = ctxOf root h.objs l := by
+  obtain ⟨h', e, _, fr⟩ := pooled_template_spec root2 (C17Heap.depth t2 + 1) t2 ht2 .root h []
+    (good_root h g.pool) (by simp)
+  exact ⟨_, h', e, g.frame fr (by simp), ctxOf_frame root g fr (by simp)⟩
+
+/-- The statement order `ev` follows – which helper evaluates its array argument before `Get`, which after; the
+    stage and the two values of every `Eval` – is the one in funcsRange.go (regenerated table). -/
+theorem heap_machine_matches_source : Gen.C17.helperSteps = C17Heap.sourceOrder := by decide
+
+private def exRoot : Ctx := { getMatch := fun _ => [97, 0, 98], getKey := fun _ => [107] }
+/-- `{@map {0} {@map {0} "{0}{k}"}}`: nested helpers, the inner sub-expression reads a key through two objects. -/
+private def exNested : C17Heap.Tm :=
+  .map (.scalar (Comp.match_ 0)) (.map (.scalar (Comp.match_ 0))
+    (.scalar (do let a ← Comp.match_ 0; let k ← Comp.key [107]; pure (a ++ k))))
+
+/-- **Exclusivity is needed** (what `pool_exclusive` provides and the seeded change `C17-objpool-return-reslice`
+    breaks): with an object twice in the free list the inner helper of `{@map {0} {@map {0} "{0}{k}"}}` is handed the
+    object the outer one holds, the overwrite makes it its own parent, and the key look-up never ends – Go's
+    `fatal error: stack overflow`.  From a duplicate-free pool – here with stale garbage in every object, parents
+    pointing at themselves – the same template evaluates to `ak␀bk`. -/
+theorem pooled_template_needs_exclusive :
+    (match C17Heap.ev exRoot 50 exNested .root ⟨⟨[0, 0], 1⟩, fun _ => ⟨.root, [], []⟩⟩ with
+      | .error _ => true | .ok _ => false) = true ∧
+    (match C17Heap.ev exRoot 50 exNested .root ⟨⟨[0, 1], 2⟩, fun n => ⟨.obj n, [1], [2]⟩⟩ with
+      | .ok (v, h') => v == [97, 107, 0, 98, 107] && h'.pool.free == [0, 1] | .error _ => false) = true := by
+  decide +kernel
+
+example : Total exNested :=
+  ⟨.getMatch _ _ fun _ => .ret _, .getMatch _ _ fun _ => .ret _,
+   .getMatch _ _ fun _ => .getKey _ _ fun _ => .ret _⟩
+/-- A non-root situation: the object 3 is checked out and heads the chain. -/
+example : Good ⟨⟨[0, 1], 4⟩, fun _ => ⟨.root, [5], [6]⟩⟩ [3] (.obj 3) :=
+  ⟨⟨by decide, by decide⟩, ⟨rfl, trivial⟩, by simp, by intro o ho; simp at ho; subst ho; exact ⟨by decide, by decide⟩⟩
+
+/-! ## `MakeArray` and `Splitter.NextOk` (the two functions of the anchor files no helper calls) -/
+
+/-- `expressions.MakeArray(values…)` – how the commands hand several values to an expression as one array – is
+    `pack`: the values in order with one separator between neighbours, nothing for no value, and (as for every
+    array) the list is read back exactly when no value contains the separator (`wellformed_iff`). -/
+theorem make_array_spec (xs : List Bytes) : C17Extra.makeArray xs = pack xs := makeArray_eq_pack xs
+
+/-- Draining a splitter with `NextOk` (any delimiter `d ≠ ""`) yields exactly the pieces `splitOn d s` – the same
+    list `Next`/`Done` give (`splitter_spec`) – within `len(s)+2` rounds; afterwards the splitter is finished and
+    stays so: another `Next` answers the empty string and changes nothing. -/
+theorem nextok_drain_spec (s d : Bytes) (hd : d ≠ []) :
+    ∃ sp', C17Extra.drainOk (s.length + 2) { S := s, Delim := d } [] = some (splitOn d s, sp') ∧
+      sp'.Done = true ∧ sp'.Next.1 = [] ∧ sp'.Next.2 = sp' := by
+  obtain ⟨sp', e, h⟩ := drainOk_spec (s.length + 2) { S := s, Delim := d } [] hd (by simp [view_init, vlen])
+  exact ⟨sp', by simpa [view_init, remaining] using e, h⟩
 
 /-! ## Non-vacuity -/
 
